@@ -51,3 +51,19 @@ for fn, decides in (('evaluate_andstatement', 'not'), ('evaluate_orstatement', '
                  raises={'MesonException': f"{EVS}[0][-1] is None or (len({EVS}) == 2 and {EVS}[1][-1] is None)" if False else 'True'}, exact_raises=False,
                  method_effects=ME, opaque={'operator_call': ([], Bool)}, floor=9,
                  note='the left operand is always evaluated first and once; the right operand is evaluated iff the left one is ' + ('true' if 'and' in fn else 'false') + ' (and is not a disabler)')
+
+# ---- range(): the cases in which it is an error (docs/yaml/functions/range.yaml) and the holder it builds otherwise
+from pyvc.api import TupleS
+II = 'mesonbuild/interpreter/interpreter.py'
+_S, _E, _P = '(0 if args[1] is None else args[0])', '(args[0] if args[1] is None else args[1])', '(1 if args[2] is None else args[2])'
+RH = "[e for e in __trace__ if e[0] == 'new RangeHolder']"
+REG.contract('C01', II, 'Interpreter.func_range',
+             params={'self': Struct('Interpreter', 'mesonbuild.interpreter.interpreter:Interpreter', subproject=Str), 'node': Obj,
+                     'args': TupleS(Int, Opt(Int), Opt(Int)), 'kwargs': Obj},
+             raises={'InterpreterException': f'{_S} < 0 or {_E} < {_S} or {_P} < 1'},
+             ensures=[f'len({RH}) == 1 and result is {RH}[0][-1]',
+                      f'{RH}[0][1] == {_S} and {RH}[0][2] == {_E} and {RH}[0][3] == {_P}',
+                      f"kw({RH}[0], 'subproject', '') == self.subproject"],
+             opaque_classes=['RangeHolder'],
+             dropped=['decorators noKwargs / FeatureNew / typed_pos_args: the argument types (int, optional int, optional int) are checked before the call (precondition: the shape of args)'],
+             floor=5, note='range(stop) / range(start, stop) / range(start, stop, step): an error iff start < 0, stop < start or step < 1 (an explicit step of 0 included); otherwise exactly the requested progression')
